@@ -518,8 +518,6 @@ def drive(res, seed_, n_hist, tier, focus, cats, pid, n_blocks=(6, 14), p_mut=0.
     def prop(rnd, cfg, nb):
         if p_deep and rnd.random() < p_deep:
             dd = gen_deep(rnd, halving=deep_halving, vlq_edge=rnd.random() < deep_vlq_edge)
-            if dd["H"] < 10_000 or (dd["H"] % R.REAL_PERIOD) > R.REAL_PERIOD - 20:
-                pass
             if deep_vlq_edge and (dd["H"] < 64 + 60 or 8192 <= dd["H"] < 16384 or (1 << 20) <= dd["H"] < (1 << 21)):
                 dd["vlq_edge"] = True
                 dd["special"] = {str((dd["H"] // R.REAL_PERIOD) * R.REAL_PERIOD - (R.REAL_PERIOD if (dd["H"] // R.REAL_PERIOD) else 0)): dd["tip_ts"] - R.REAL_TIMESPAN}
